@@ -33,9 +33,9 @@ Section Shapes.
 
   Definition exists_cmd (inv : invocation) : Prop := nthN (a_commands tabs) (fst (fst inv)) <> None.
 
-  Lemma run_cmd_extends (P : invocation -> Prop) cid a1 a2 log cands log' :
+  Lemma run_cmd_extends (P : invocation -> Prop) v cid a1 a2 log cands log' :
     (nthN (a_commands tabs) cid <> None -> P (cid, a1, a2)) ->
-    run_cmd tabs e cid a1 a2 log = Ok (cands, log') -> extends P log log'.
+    run_cmd v tabs e cid a1 a2 log = Ok (cands, log') -> extends P log log'.
   Proof.
     unfold run_cmd. intros HP H. destruct (nthN (a_commands tabs) cid) eqn:E; [|discriminate].
     injection H as _ <-. apply extends_one. apply HP. discriminate.
@@ -87,8 +87,8 @@ Section Shapes.
           * injection H as _ _ _ <-. exact X.
     Qed.
 
-    Lemma sw_cmds_level_extends ci : forall cids sc sm log sc' sm' log',
-        sw_cmds_level tabs e cids (sdrop ci word) (stake ci word) sc sm log = Ok (sc', sm', log') ->
+    Lemma sw_cmds_level_extends v ci : forall cids sc sm log sc' sm' log',
+        sw_cmds_level v tabs e cids (sdrop ci word) (stake ci word) sc sm log = Ok (sc', sm', log') ->
         extends PW log log'.
     Proof.
       induction cids as [|cid r IH]; intros sc sm log sc' sm' log' H.
@@ -98,8 +98,8 @@ Section Shapes.
         eapply run_cmd_extends; [|exact E0]. intros Hc. split; [exact Hc|]. now exists ci.
     Qed.
 
-    Lemma sw_levels_extends T state ci : forall n level sc sm log adds log',
-        sw_levels n level tabs e T state (stake ci word) (sdrop ci word) sc sm log = Ok (adds, log') ->
+    Lemma sw_levels_extends v T state ci : forall n level sc sm log adds log',
+        sw_levels n level v tabs e T state (stake ci word) (sdrop ci word) sc sm log = Ok (adds, log') ->
         extends PW log log'.
     Proof.
       induction n as [|n IH]; intros level sc sm log adds log' H.
@@ -155,8 +155,8 @@ Section Shapes.
       + eapply extends_trans; [exact X|]. eapply IH; eauto.
   Qed.
 
-  Lemma top_cmd_loop_extends w last : forall cmds log r log',
-      top_cmd_loop tabs e cmds w last log = Ok (r, log') -> extends Q log log'.
+  Lemma top_cmd_loop_extends v w last : forall cmds log r log',
+      top_cmd_loop v tabs e cmds w last log = Ok (r, log') -> extends Q log log'.
   Proof.
     induction cmds as [|[cid to] rest IH]; intros log r log' H.
     - cbn in H. injection H as _ <-. apply extends_refl.
@@ -167,7 +167,7 @@ Section Shapes.
       + eapply extends_trans; [exact X|]. eapply IH; eauto.
       + bind H as E1. destruct a.
         * injection H as _ <-. exact X.
-        * destruct last.
+        * destruct (last && quirky v).
           -- injection H as _ <-. exact X.
           -- eapply extends_trans; [exact X|]. eapply IH; eauto.
   Qed.
@@ -217,8 +217,8 @@ Section Shapes.
       eapply extends_impl; [apply (PW_Q p (or_introl eq_refl))|]. eapply subword_complete_extends; eauto.
   Qed.
 
-  Lemma top_cmds_level_extends : forall cids cands matches log c' m' log',
-      top_cmds_level tabs e cids p cands matches log = Ok (c', m', log') -> extends Q log log'.
+  Lemma top_cmds_level_extends v : forall cids cands matches log c' m' log',
+      top_cmds_level v tabs e cids p cands matches log = Ok (c', m', log') -> extends Q log log'.
   Proof.
     induction cids as [|cid r IH]; intros cands matches log c' m' log' H.
     - cbn in H. injection H as _ _ <-. apply extends_refl.
